@@ -53,7 +53,7 @@ def body(kind, item, id_, eq=None, comps=None):
         return [" -fixed_volume", " -volume 1", f" CO2(g) {_v(0.001, id_):.6g}"] + extra
     if kind == "kinetics":
         f = ["NaCl", "KCl"][item % 2]
-        return [" Rxx", f" -formula {f} 1", f" -m {_v(1.0, id_):.6g}", " -steps 10"]
+        return [" Rxx", f" -formula {f} 1", f" -m {_v(1.0, id_):.6g}", " -steps 1"]
     if kind == "mix":
         return [f" {c} {f:.3g}" for c, f in comps]
     if kind == "reaction":
